@@ -230,6 +230,11 @@ func generate(r *rng.R, thorough bool, index int) *history {
 		return 0, false
 	}
 
+	type usedDigest struct {
+		d    uint64
+		inst []uint64
+	}
+	var policyUsed []usedDigest
 	last = w.bq.VerifDump()
 	n := 30 + r.Intn(61)
 	if thorough {
@@ -271,6 +276,15 @@ func generate(r *rng.R, thorough bool, index int) *history {
 					dg = uint64(r.Intn(32))*2 + pqs[0].plat%2
 				}
 				inst = append(append([]uint64{}, pqs[0].prefix...), instances[r.Intn(2)]...)
+				// now and then a duplicate of an earlier request (same digest and
+				// instance name, usually another invocation): deduplication onto a
+				// task that is already executing changes its invocations' scores
+				if len(policyUsed) > 0 && r.Chance(20) {
+					u := policyUsed[r.Intn(len(policyUsed))]
+					dg, inst = u.d, u.inst
+				} else {
+					policyUsed = append(policyUsed, usedDigest{dg, inst})
+				}
 			}
 			plat := dg % 2 // the platform is part of the action, hence a function of its digest
 			nsc := scsFor(inst, plat)
